@@ -311,6 +311,15 @@ class Ctx:
                     axioms.append(m.group(1))
         info['assumptions'] = sorted(set(axioms)) or ['Closed under the global context (x%d)' % closed]
         src = open(os.path.join(COQ, prop_file)).read()
+        # the property file holds statements only: every proof is `exact <lemma>.` and every theorem is printed
+        nocom = re.sub(r'\(\*.*?\*\)', ' ', src, flags=re.S)
+        loose = [b.strip()[:60] for b, e in re.findall(r'Proof\.(.*?)(Qed|Defined)\.', nocom, flags=re.S)
+                 if not re.fullmatch(r'exact\s[\s\S]*\.', b.strip())]
+        stated = re.findall(r'^\s*(?:Theorem|Lemma|Example|Corollary|Fact|Proposition|Remark)\s+([A-Za-z0-9_\']+)', nocom, flags=re.M)
+        unprinted = [t for t in stated if not re.search(r'Print Assumptions\s+%s\.' % re.escape(t), nocom)]
+        if loose or unprinted:
+            self.problem('proof-break', 'prop-file-shape', 'property file must contain statements closed by `exact` and print the assumptions of '
+                         'each: non-exact proofs %s, not printed %s' % (loose[:3], unprinted[:5]), theorem=prop_file)
         n_print = len(re.findall(r'Print Assumptions', src))
         info['theorems'] = re.findall(r'Print Assumptions\s+([A-Za-z0-9_\']+)', src)
         if closed + len(re.findall(r'Axioms:', r.stdout)) < n_print or n_print == 0:
